@@ -291,3 +291,7 @@ Example C07_ex_chains :
   minimal_chains 8 = Ok [(1, [1]); (2, [1; 2]); (3, [1; 2; 3]); (4, [1; 2; 4]); (5, [1; 2; 3; 5]);
                          (6, [1; 2; 3; 6]); (8, [1; 2; 4; 8]); (7, [1; 2; 3; 5; 7])].
 Proof. vm_compute. reflexivity. Qed.
+
+(* ---- source pins: the functions whose hand-written model carries the theorems above are still, textually (after
+   ast normalisation), the functions the model was validated against; an edit breaks Bridge/Pins_C07.v ---- *)
+From KV Require Bridge.Pins_C07.
